@@ -1,0 +1,13 @@
+//go:build !verif
+
+package table
+
+import "sync"
+
+func verifYield(string)                      {}
+func verifBeforeWLock(*sync.RWMutex, string) {}
+func verifBeforeRLock(*sync.RWMutex, string) {}
+func verifBeforeMLock(*sync.Mutex, string)   {}
+
+// VerifYieldPoint is a no-op unless built with the "verif" tag.
+func VerifYieldPoint(string) {}
